@@ -406,6 +406,51 @@ def r5_explicit_options_win(ctx):
                    'the optional argument `%s` is never merged with config[%r]: left at None it means "off", so a configured %s (e.g. --offset) has no effect on the displayed text' % (pname, pname, pname),
                    anchor=fp.qualname)
 
+    # the merge itself, evaluated over the values a caller may pass (FINITE-EVAL)
+    gq = 'xdoctest.doctest_example.DoctestConfig.getvalue'
+    gf = ctx.func(gq)
+    gg = ctx.cfg(gf)
+    gdom = ctx.dom(gg, gg.entry)
+    pnames = [x.arg for x in gf.node.args.args]
+    need(len(pnames) == 3, 'C18.R5: getvalue(self, key, given) not found')
+    given = pnames[2]
+    rets = [n for n in gg.nodes if n.kind == 'stmt' and not n.dup and isinstance(n.ast, ast.Return) and n.ast.value is not None]
+    rep.floor('C18.R5', 'returns of DoctestConfig.getvalue', len(rets), 2)
+
+    def gev(e, v):
+        if isinstance(e, ast.Constant):
+            return e.value
+        if is_name(e, given):
+            return v
+        if isinstance(e, ast.UnaryOp) and isinstance(e.op, ast.Not):
+            return not gev(e.operand, v)
+        if isinstance(e, ast.BoolOp):
+            vs = [bool(gev(x, v)) for x in e.values]
+            return all(vs) if isinstance(e.op, ast.And) else any(vs)
+        if isinstance(e, ast.Compare) and len(e.ops) == 1:
+            l, r = gev(e.left, v), gev(e.comparators[0], v)
+            op = e.ops[0]
+            if isinstance(op, ast.Is):
+                return l is r
+            if isinstance(op, ast.IsNot):
+                return l is not r
+            if isinstance(op, ast.Eq):
+                return l == r
+            if isinstance(op, ast.NotEq):
+                return l != r
+        raise AnalysisError('C18.R5: a condition of getvalue was not recognised: %s' % ast.unparse(e))
+    rows = []
+    for v in (None, False, 0, '', True, 1, 'x'):
+        hit = [n for n in rets if all(bool(gev(fa.expr, v)) == fa.polarity for fa in graph.guard_facts(gdom, n) if fa.polarity in (True, False) and isinstance(fa.expr, ast.AST))]
+        need(len(hit) == 1, 'C18.R5: getvalue(%r) does not reach exactly one return' % (v,))
+        gives = 'given' if is_name(hit[0].ast.value, given) else 'config'
+        if gives != ('config' if v is None else 'given'):
+            rows.append((v, gives, hit[0]))
+    rep.ob('C18.R5', ctx.loc(gf, rows[0][2].ast if rows else gf.node), 'getvalue(key, given) over given in None, False, 0, \'\', True, 1, \'x\'', not rows,
+           'the configured value is used exactly when the caller passed None' if not rows else
+           'getvalue(key, %r) returns the %s value: an explicit falsy option of the caller (colored=False, offset_linenos=False, verbose=0) is replaced by the configured one' %
+           (rows[0][0], 'configured' if rows[0][1] == 'config' else 'given'), anchor=gq)
+
 
 def r6_continuation_prompt_pairing(ctx):
     """_complete_source yields (line as stored, line as the labeller sees it).  Where it inserts a continuation prompt into the stored line (body
@@ -513,6 +558,8 @@ DE = 'xdoctest/doctest_example.py'
 DP = 'xdoctest/doctest_part.py'
 US = 'xdoctest/utils/util_str.py'
 VARIANTS = [
+    fire('getvalue-merges-by-truthiness', 'C18.R5', (DE, "        if given is None:\n            return self[key]\n", "        if not given:\n            return self[key]\n")),
+    silent('getvalue-early-return', (DE, "        if given is None:\n            return self[key]\n        else:\n            return given\n", "        if given is not None:\n            return given\n        return self[key]\n")),
     fire('format-before-parse', 'C18.R8', (DE, "        self._parse()\n        colored = self.config.getvalue('colored', colored)\n", "        colored = self.config.getvalue('colored', colored)\n")),
     fire('configured-offset-never-merged', 'C18.R5', (DE, "        offset_linenos = self.config.getvalue('offset_linenos', offset_linenos)\n", "        pass\n")),
     fire('prefix-option-not-forwarded', 'C18.R7', (DE, "                                         n_digits=n_digits, prefix=prefix,\n", "                                         n_digits=n_digits,\n")),
